@@ -86,7 +86,7 @@ def check(run, driver):
         for method in METHODS:
             heavy = method in ("standard", "alternative")
             if info in ("gaussian",):
-                m = 120 if thorough else (40 if heavy else 16)
+                m = 200 if thorough else (80 if heavy else 16)
             elif info in ("knn", "kde"):
                 m = 60 if thorough else (6 if heavy else 12)
             elif info == "poisson":
